@@ -264,7 +264,7 @@ pub fn run(cx: &mut Ctx) {
             check(c, Kind::Tpl, &texs, false, false);
         });
     }
-    let n = cx.a.n(20_000, 200_000);
+    let n = cx.a.n(60_000, 400_000);
     for i in 0..n {
         cx.case("random", |c| {
             let mut rng = c.rng.clone();
